@@ -243,7 +243,7 @@ def const_of(e: Optional[ast.AST]):
     return "expr"
 
 
-LATER_RULES = ' Later rules: R16.4 emptiness by iteration; R16.6/R16.12 through helpers; R16.11 also while-else and remove_dead_ifs; R16.13 counts parameters; (R16.14) analysers keep no module-level memory; (R16.15) named callees and undecorated functions only. (R16.20) a with statement does not block through an exception raised in its body (the context manager may swallow it).'
+LATER_RULES = ' Later rules: R16.4 emptiness by iteration; R16.6/R16.12 through helpers; R16.11 also while-else and remove_dead_ifs; R16.13 counts parameters; (R16.14) analysers keep no module-level memory; (R16.15) named callees and undecorated functions only. (R16.21) optional parameters of has_side_effect that recursive calls leave out have empty defaults; (R16.20) a with statement does not block through an exception raised in its body (the context manager may swallow it).'
 
 
 def check(prog: Program, tier: str) -> Result:
@@ -296,7 +296,8 @@ def check(prog: Program, tier: str) -> Result:
     _r16_18(prog, res)
     _r16_19(prog, res)
     _r16_20(prog, res)
-    res.floors.update({"R16.20": 1, "R16.1": 60, "R16.2": 25, "R16.3": 10, "R16.4": 2, "R16.5": 1, "R16.6": 3, "R16.7": 8, "R16.8": 5, "R16.9": 2, "R16.10": 4, "R16.11": 1, "R16.12": 1, "R16.13": 1, "R16.15": 2, "R16.16": 3, "R16.17": 1, "R16.18": 4, "R16.19": 1})
+    _r16_21(prog, res)
+    res.floors.update({"R16.21": 1, "R16.20": 1, "R16.1": 60, "R16.2": 25, "R16.3": 10, "R16.4": 2, "R16.5": 1, "R16.6": 3, "R16.7": 8, "R16.8": 5, "R16.9": 2, "R16.10": 4, "R16.11": 1, "R16.12": 1, "R16.13": 1, "R16.15": 2, "R16.16": 3, "R16.17": 1, "R16.18": 4, "R16.19": 1})
     res.analysed.update({"ast_kinds": len(kinds)})
     return res
 
@@ -936,6 +937,37 @@ def _r16_18(prog: Program, res: Result) -> None:
 
 
 # ------------------------------------------------------------------------------------------------ R16.19
+# ------------------------------------------------------------------------------------------------ R16.21
+def _r16_21(prog: Program, res: Result) -> None:
+    """has_side_effect calls itself for sub-expressions; several of those calls do not hand the whitelist of safe callables on
+    (receivers of attributes, assigned values, formatted values) and so judge the sub-expression with the DEFAULT whitelist.
+    That is conservative only while the default is empty: a non-empty default (the table of builtin names) is a whitelist that
+    was never reduced by the names the analysed module redefines (R16.13), so `f"{format(x)}"` with a user-defined `format`
+    counts as effect-free.  Obligation: every optional parameter of the analyser that a recursive call can leave out and that
+    names a collection of callables has an empty default."""
+    fn = prog.func("core", "has_side_effect")
+    args = fn.node.args
+    pos = args.posonlyargs + args.args
+    defaults = dict(zip([a.arg for a in pos[len(pos) - len(args.defaults):]], args.defaults))
+    defaults.update({a.arg: d for a, d in zip(args.kwonlyargs, args.kw_defaults) if d is not None})
+    rec = [c for c in prog.calls_in(fn) if (lambda r: r and r[0] == "fn" and r[1].key == fn.key)(prog.resolve_call(c.func, fn.mod, fn))]
+    n = 0
+    for p_name, d in defaults.items():
+        idx = fn.posparams.index(p_name) if p_name in fn.posparams else None
+        omitted = [c for c in rec if not any(k.arg == p_name for k in c.keywords) and not (idx is not None and len(c.args) > idx)]
+        if not omitted:
+            continue
+        n += 1
+        empty = (isinstance(d, ast.Constant) and d.value is None) or (isinstance(d, (ast.Tuple, ast.List, ast.Set, ast.Dict)) and not getattr(d, "elts", getattr(d, "keys", []))) \
+            or (isinstance(d, ast.Call) and isinstance(d.func, ast.Name) and d.func.id in ("frozenset", "set", "tuple", "list", "dict") and not d.args)
+        res.decide(empty, "R16.21", fn.loc(d), fn.fq, f"{p_name}={norm(d)} # default used by {len(omitted)} recursive call(s) that do not pass it on",
+                   "the default is empty: what is judged without the caller's whitelist is judged conservatively" if empty else
+                   f"{len(omitted)} recursive calls judge sub-expressions with this non-empty default instead of the whitelist the caller reduced by the names the module "
+                   "redefines: a user-defined `format` / `sorted` / `len` called inside an f-string, an assigned value or an attribute receiver counts as effect-free")
+    if n == 0:
+        res.ok("R16.21", fn.loc(), fn.fq, "defaults of has_side_effect", "every recursive call passes every optional parameter on", trivial=False)
+
+
 # ------------------------------------------------------------------------------------------------ R16.20
 def _r16_20(prog: Program, res: Result) -> None:
     """`with cm: raise E` / `with cm: assert False` leave the with statement through cm.__exit__, which may swallow the
